@@ -6,7 +6,7 @@ using namespace vf;
 
 struct harness_abort : std::exception { std::string msg; harness_abort(const std::string& m) : msg(m) {} const char* what() const noexcept override { return msg.c_str(); } };
 
-struct Tracker { std::set<unsigned> ever_seen; unsigned max_seen = 0; bool have = false; long checks = 0; long couplings_seen = 0; long phases = 0; };
+struct Tracker { std::set<unsigned> ever_seen; unsigned max_seen = 0; bool have = false; long checks = 0; long couplings_seen = 0; long phases = 0; std::map<std::pair<unsigned, unsigned>, std::array<double, 3>> partner_pos; /* where each designated partner sat at the first phase after the contact phase */ };
 static Tracker* g_tr = nullptr;
 
 static std::string check_population(solver* s, const char* phase) {
@@ -22,7 +22,7 @@ static std::string check_population(solver* s, const char* phase) {
     }
     for (auto& c : L) { T.ever_seen.insert(c->get_id()); T.max_seen = T.have ? std::max(T.max_seen, c->get_id()) : c->get_id(); T.have = true; }
 #if CONTACT_MODEL_INDEX == 1
-    bool couplings_live = !strcmp(phase, "polarize") || !strcmp(phase, "forces") || !strcmp(phase, "integrate");
+    bool couplings_live = !strcmp(phase, "polarize") || !strcmp(phase, "forces") || !strcmp(phase, "integrate"); if (!strcmp(phase, "contact") || !strcmp(phase, "begin")) T.partner_pos.clear();
     if (couplings_live) for (size_t i = 0; i < L.size(); i++) for (const node& n : L[i]->node_lst_) if (n.is_used_ && n.coupled_node_.has_value()) { T.couplings_seen++;
         auto [ci, ni] = n.coupled_node_.value();
         if (ci >= L.size()) { snprintf(buf, sizeof buf, "coupling-designates-nonexistent-cell: node %u of cell at index %zu is coupled to cell index %u of %zu (phase %s)", n.node_id_, i, ci, L.size(), phase); return buf; }
@@ -30,8 +30,12 @@ static std::string check_population(solver* s, const char* phase) {
         if (ni >= L[ci]->node_lst_.size() || !L[ci]->node_lst_[ni].is_used_) { snprintf(buf, sizeof buf, "coupling-designates-dead-or-nonexistent-node: node %u of cell index %zu -> node %u of cell index %u (phase %s)", n.node_id_, i, ni, ci, phase); return buf; }
         // the partner must be the node the contact phase meant: both cells epithelial and within the adhesion cut-off
         if (L[ci]->get_cell_type_id() != 0 || L[i]->get_cell_type_id() != 0) { snprintf(buf, sizeof buf, "coupling-between-non-epithelial-cells: index %zu -> %u (phase %s)", i, ci, phase); return buf; }
-        // ... and the node it was coupled to: between the contact phase and the time integration no node moves, so the partner still lies within the adhesion cut-off
-        { const double d = (L[ci]->node_lst_[ni].pos_ - n.pos_).norm(), cut = s->sim_parameters_.contact_cutoff_adhesion_; if (d > cut * (1 + 1e-9)) { snprintf(buf, sizeof buf, "coupling-designates-a-node-that-is-not-the-partner: node %u of cell index %zu -> node %u of cell index %u lies %.6g away, adhesion cut-off %.6g (phase %s)", n.node_id_, i, ni, ci, d, cut, phase); return buf; } } }
+        // ... and the node it was coupled to.  Between the contact phase and the time integration no node moves and no list is reordered, so the partner designated at the first phase after
+        // the contact phase (polarize) is, at every later point of use, the node that sits where it sat then.  (A bound on the distance would demand more than the model promises: a partner
+        // that is itself re-coupled to a closer node is pulled away by up to half a cut-off.)
+        { const vec3& pp = L[ci]->node_lst_[ni].pos_; auto key = std::make_pair((unsigned)i, n.node_id_);
+          if (!strcmp(phase, "polarize")) T.partner_pos[key] = {pp.dx(), pp.dy(), pp.dz()};
+          else { auto it = T.partner_pos.find(key); if (it != T.partner_pos.end() && (it->second[0] != pp.dx() || it->second[1] != pp.dy() || it->second[2] != pp.dz())) { snprintf(buf, sizeof buf, "coupling-designates-a-node-that-is-not-the-partner: node %u of cell index %zu -> node %u of cell index %u: that slot held (%.9g,%.9g,%.9g) after the contact phase and holds (%.9g,%.9g,%.9g) now (phase %s)", n.node_id_, i, ni, ci, it->second[0], it->second[1], it->second[2], pp.dx(), pp.dy(), pp.dz(), phase); return buf; } } } }
 #elif CONTACT_MODEL_INDEX == 2
     bool couplings_live = !strcmp(phase, "polarize") || !strcmp(phase, "forces") || !strcmp(phase, "integrate");
     if (couplings_live) for (size_t i = 0; i < L.size(); i++) for (const node& n : L[i]->node_lst_) if (n.is_used_) for (auto& kv : n.coupled_nodes_map_) { T.couplings_seen++; unsigned ci = kv.first, ni = kv.second.first;
